@@ -2,7 +2,7 @@
    ServerExchange.Run over the in-memory transport) with recorded random streams; the model's
    honest run on the same random values must give the same key / id / salt on both sides. *)
 From Coq Require Import List ZArith Bool.
-From TD Require Import Lib.GoSem Lib.RunLib Gen.DhCheck Model.Exchange Run.ExchangeExec.
+From TD Require Import Lib.GoSem Lib.RunLib Gen.DhCheck Model.TlSchema Gen.SchemaMt Model.Exchange Model.ExchangeWire Run.ExchangeExec.
 Import ListNotations.
 Open Scope Z_scope.
 
@@ -11,7 +11,7 @@ Open Scope Z_scope.
     (g^b, g_a^b, g_b^a) [math/big], (nonce_hash1, key id) [gotd crypto on the client's key],
     observed client (kind, key, id, salt), observed server (kind, key, id, salt)) ; kind 0 = ok *)
 Definition obs := (Z * list Z * list Z * Z)%type.
-Definition case := ((Z * Z * Z) * (list Z * list Z * list Z) * (Z * Z * Z) * (Z * bool * bool) *
+Definition run_case := ((Z * Z * Z) * (list Z * list Z * list Z) * (Z * Z * Z) * (Z * bool * bool) *
                     list Z * (Z * Z * Z) * (list Z * list Z) * obs * obs)%type.
 
 Definition be := ExchangeExec.be.   (* visible to the generated cases files *)
@@ -23,7 +23,7 @@ Fixpoint ga_rows (p : Z) (i : Z) (gas : list Z) : pow_tab :=
 Fixpoint names (i : Z) (gas : list Z) : list Z :=
   match gas with [] => [] | _ :: t => i :: names (i + 1) t end.
 
-Definition ok (c : case) : bool :=
+Definition run_ok (c : run_case) : bool :=
   let '(cfg, nonces, pqs, ps, gas, pows, hashes, oc, os) := c in
   let '(dc_c, dc_s, expires) := cfg in
   let '(n, nn, sn) := nonces in
@@ -50,4 +50,37 @@ Definition ok (c : case) : bool :=
   | ServerErr _ => negb (sk =? 0)
   | ClientPanic => ck =? 99
   end.
+(* Wire cases: a plaintext exchange message of a real run, as the fields gotd's own mt decoder
+   extracted from it (byte-string fields, then integer fields) and its real TL body.  The model
+   (generated mt schema + generic TL interpreter) must ENCODE the fields to exactly those bytes and
+   DECODE the bytes back to the same value.
+   kind 1 req_pq_multi [nonce] | 2 resPQ [nonce; server_nonce; pq] fps | 3 req_DH_params [nonce; server_nonce; p; q; enc] [fp]
+      | 4 server_DH_params_ok [nonce; server_nonce; enc] | 5 set_client_DH_params [nonce; server_nonce; enc] | 6 dh_gen_ok [nonce; server_nonce; hash] *)
+Inductive case :=
+| CRun (c : run_case)
+| CWire (kind : Z) (bs : list (list Z)) (zs : list Z) (body : list Z).
+
+Definition wire_value (kind : Z) (bs : list (list Z)) (zs : list Z) : option (ty * value) :=
+  match kind, bs with
+  | 1, [n] => Some (TBoxed ci_req_pq_multi, v_req_pq n)
+  | 2, [n; sn; pq] => Some (TBoxed ci_respq, v_respq {| rp_nonce := n; rp_server_nonce := sn; rp_pq := be_val pq; rp_fps := zs |})
+  | 3, [n; sn; p; q; enc] =>
+      Some (TBoxed ci_req_dh, v_req_dh {| rd_nonce := n; rd_server_nonce := sn; rd_p := be_val p; rd_q := be_val q; rd_fp := hd 0 zs; rd_enc := enc |})
+  | 4, [n; sn; enc] => Some (TClass (cls_of ci_sdh_ok), v_sdh_ok n sn enc)
+  | 5, [n; sn; enc] => Some (TBoxed ci_set_dh, v_set_dh {| sd_nonce := n; sd_server_nonce := sn; sd_enc := enc |})
+  | 6, [n; sn; h] => Some (TClass (cls_of ci_gen_ok), v_gen_ok n sn h)
+  | _, _ => None
+  end.
+Definition wire_ok (kind : Z) (bs : list (list Z)) (zs : list Z) (body : list Z) : bool :=
+  match wire_value kind bs zs with
+  | None => false
+  | Some (t, v) =>
+      match body_of t v with
+      | Ok b => zlist_eqb b body &&
+                match value_of_body t body with Some v' => value_eqb v v' | None => false end
+      | _ => false
+      end
+  end.
+Definition ok (c : case) : bool :=
+  match c with CRun r => run_ok r | CWire k bs zs body => wire_ok k bs zs body end.
 Definition mismatches (cs : list case) : list nat := mismatch_idx ok cs.
